@@ -22,7 +22,11 @@ CONFIGS = {
                                         "TypeSet": "c_TypeSetBig", "MaxPropObjs": 0}, 2)],
     "thorough": [("MC_C10", "MC_C10.cfg", {"MaxSegs": 2, "ObjLists": "c_ObjListsQ", "KVals": "{1}", "TypeSet": "c_TypeSet",
                                            "MaxPropObjs": 0}, 2),
-                 ("MC_C10", "MC_C10.cfg", {"MaxSegs": 2, "ObjLists": "c_ObjListsQ", "KVals": "{1, 2}", "NVals": "{2}"}, 3)],
+                 ("MC_C10", "MC_C10.cfg", {"MaxSegs": 2, "ObjLists": "c_ObjListsQ", "KVals": "{1, 2}", "NVals": "{2}"}, 3),
+                 # large channels (as in the quick tier, more lengths around the powers of two)
+                 ("MC_C10", "MC_C10.cfg", {"MaxSegs": 1, "ObjLists": "c_ObjListsBig", "KVals": "{1}",
+                                           "NVals": "{80001, 131072, 65536, 131073, 196608}",
+                                           "TypeSet": "c_TypeSetBig", "MaxPropObjs": 0}, 2)],
 }
 
 
